@@ -329,3 +329,54 @@ Example C12_process_group_example :
   sig_group 10 tb = [mkProc 10 10 false; mkProc 7 7 true; mkProc 11 10 false; mkProc 12 10 false] /\
   sig_pid 10 tb = [mkProc 10 10 false; mkProc 7 7 true; mkProc 11 10 true; mkProc 12 10 true].
 Proof. cbn zeta. split; vm_compute; reflexivity. Qed.
+
+(* ---------------------------------------------------------------- calculate_order: overrides or the file *)
+(* EngineBase.calculate_order uses the three overrides only when ALL of them are given ... *)
+Theorem C12_calculate_order_overrides : forall ord rv x v b file sysbox,
+  calculate_order_args ord rv (Some x) (Some v) (Some b) file sysbox = calc_order ord rv x v b.
+Proof. exact calculate_order_args_given. Qed.
+Print Assumptions C12_calculate_order_overrides.
+
+(* ... one missing override makes it use the configuration file the System points to for all
+   three (the file's box where it has one, else the box the System already carries) *)
+Theorem C12_calculate_order_falls_back_to_file : forall ord rv xyz vel box file sysbox,
+  xyz = None \/ vel = None \/ box = None ->
+  calculate_order_args ord rv xyz vel box file sysbox
+  = calc_order ord rv (fc_pos file) (fc_vel file) (match fc_box file with Some b => b | None => sysbox end).
+Proof. exact calculate_order_args_fallback. Qed.
+Print Assumptions C12_calculate_order_falls_back_to_file.
+
+(* the in-process loops hand over the current state with a box that is never None (TurtleMD:
+   tmd_system.box.length, ASE: atoms.cell.diagonal()): the loop with its call site spelled out is
+   the loop of C12_inproc_prefix_until_stop, for EVERY initial configuration file -- with or
+   without a box entry / velocities -- so frame k stores the order parameter of its own state *)
+Theorem C12_inproc_call_site_own_state : forall fx ord left right rv s boxarg init sysbox,
+  (forall c, boxarg c = Some (cbox c)) ->
+  forall fine i p step,
+  inproc_loop_args fx ord left right rv s boxarg init sysbox fine i p step
+  = inproc_loop fx ord left right rv s fine i p step.
+Proof. exact inproc_loop_args_own_box. Qed.
+Print Assumptions C12_inproc_call_site_own_state.
+
+(* the hypothesis is needed: a box override read from the initial file is None for a file
+   without box entry; every frame then stores the order parameter of the INITIAL configuration,
+   the crossing is not seen and the run continues to the length limit *)
+Theorem C12_inproc_box_from_initial_file_refuted :
+  exists ord left right fine init M,
+    fc_box init = None /\
+    inproc_loop true ord left right false 1 fine 0 (empty_path M 0) 0
+    = Ret (mkP [mkF 1 0 false 0; mkF 3 1 false 1; mkF 5 2 false 2] M 0) true PNone /\
+    inproc_loop_args true ord left right false 1 (fun _ => fc_box init) init 0 fine 0 (empty_path M 0) 0
+    = Ret (mkP [mkF 1 0 false 0; mkF 1 1 false 1; mkF 1 2 false 2; mkF 1 3 false 3] M 0) false PNone.
+Proof.
+  exists (fun p v b : Z => p), 0, 4, [mkC 1 1 0; mkC 3 1 0; mkC 5 1 0; mkC 7 1 0], (mkFC 1 1 None), 4%nat.
+  split; [reflexivity|]. exact inproc_loop_args_file_box_refuted.
+Qed.
+Print Assumptions C12_inproc_box_from_initial_file_refuted.
+
+Example C12_calculate_order_example :
+  let ord := fun p v b : Z => p + 10 * v + 100 * b in
+  calculate_order_args ord true (Some 1) (Some 2) (Some 3) (mkFC 4 5 None) 6 = 281 /\
+  calculate_order_args ord true (Some 1) (Some 2) None (mkFC 4 5 None) 6 = 554 /\
+  calculate_order_args ord false (Some 1) None (Some 3) (mkFC 4 5 (Some 7)) 6 = 754.
+Proof. repeat split; vm_compute; reflexivity. Qed.
